@@ -422,4 +422,12 @@ def rule_totals_fresh(ck):
                     'follow the new scale' % bad[0]) if bad else o.ok('sum of the current data'))
 
 
-RULES = [rule_t, rule_binary_t, rule_w, rule_public_t, rule_public_binary, rule_public_w, rule_rates_source, rule_totals_fresh]
+def rule_precision(ck):
+    """C08-D4.double: numbers stay in the precision they were supplied in - no conversion of rates / counts / statistics to a narrower type
+    (shared reading with C05-D5.double)"""
+    from .common import rule_double_precision
+    ck.clause('D4')
+    rule_double_precision(ck, 'C08-D4.double', modules=('csep.core.poisson_evaluations', 'csep.core.binomial_evaluations', 'csep.core.forecasts'), what='per-event rates and forecast totals')
+
+
+RULES = [rule_t, rule_binary_t, rule_w, rule_public_t, rule_public_binary, rule_public_w, rule_rates_source, rule_totals_fresh, rule_precision]
